@@ -747,3 +747,123 @@ func (b *batch) CreateRelationshipByIDs(start, end graph.ID, kind graph.Kind, pr
 	g.AddRel(&Rel{ID: id, Start: start, End: end, Kind: kind.String(), Props: propsMap(props)})
 	return nil
 }
+
+// ---- Query with a RETURN projection (the shape traversal.LightweightDriver emits) ----
+
+type rowResult struct {
+	rows [][]any
+	i    int
+	err  error
+}
+
+func (s *rowResult) Next() bool                { s.i++; return s.i <= len(s.rows) }
+func (s *rowResult) Keys() []string            { return nil }
+func (s *rowResult) Values() []any             { return s.rows[s.i-1] }
+func (s *rowResult) Mapper() graph.ValueMapper { return graph.ValueMapper{} }
+func (s *rowResult) Error() error              { return s.err }
+func (s *rowResult) Close()                    {}
+func (s *rowResult) Scan(targets ...any) error {
+	row := s.rows[s.i-1]
+	if len(targets) != len(row) {
+		return fmt.Errorf("simdb: scan of %d columns into %d targets", len(row), len(targets))
+	}
+	for i, t := range targets {
+		switch p := t.(type) {
+		case *graph.ID:
+			v, ok := row[i].(graph.ID)
+			if !ok {
+				return fmt.Errorf("simdb: column %d is %T, target *graph.ID", i, row[i])
+			}
+			*p = v
+		case *graph.Kinds:
+			v, ok := row[i].(graph.Kinds)
+			if !ok {
+				return fmt.Errorf("simdb: column %d is %T, target *graph.Kinds", i, row[i])
+			}
+			*p = v
+		case *graph.Kind:
+			v, ok := row[i].(graph.Kind)
+			if !ok {
+				return fmt.Errorf("simdb: column %d is %T, target *graph.Kind", i, row[i])
+			}
+			*p = v
+		default:
+			return fmt.Errorf("simdb: unsupported scan target %T", t)
+		}
+	}
+	return nil
+}
+
+func project(item any, e env) any {
+	if pi, ok := item.(*cypher.ProjectionItem); ok {
+		item = pi.Expression
+	}
+	fi, ok := item.(*cypher.FunctionInvocation)
+	if !ok || len(fi.Arguments) != 1 {
+		unsupported(item)
+	}
+	v, ok := fi.Arguments[0].(*cypher.Variable)
+	if !ok {
+		unsupported(item)
+	}
+	switch fi.Name {
+	case "id":
+		id, ok := idOfVar(v.Symbol, e)
+		if !ok {
+			unsupported(item)
+		}
+		return id
+	case "labels":
+		ks, ok := kindsOfVar(v.Symbol, e)
+		if !ok {
+			unsupported(item)
+		}
+		out := make(graph.Kinds, 0, len(ks))
+		for _, k := range ks {
+			out = append(out, graph.StringKind(k))
+		}
+		return out
+	case "type":
+		if e.r == nil {
+			unsupported(item)
+		}
+		return graph.StringKind(e.r.Kind)
+	}
+	unsupported(item)
+	return nil
+}
+
+func (s *relQ) Query(fn func(results graph.Result) error, finalCriteria ...graph.Criteria) error {
+	if err := s.db.hook(s.ctx, "Relationships.Query"); err != nil {
+		return err
+	}
+	var ret *cypher.Return
+	for _, c := range finalCriteria {
+		if r, ok := c.(*cypher.Return); ok {
+			ret = r
+		}
+	}
+	if ret == nil || ret.Projection == nil {
+		panic("simdb: Query without a RETURN projection is unsupported")
+	}
+	g := s.db.Graph(s.g)
+	var rows [][]any
+	for _, r := range s.rows() {
+		e := env{r: r, s: g.node(r.Start), e: g.node(r.End)}
+		row := make([]any, 0, len(ret.Projection.Items))
+		for _, it := range ret.Projection.Items {
+			row = append(row, project(it, e))
+		}
+		rows = append(rows, row)
+	}
+	var endErr error
+	if s.db.CursorEnd != nil {
+		if keep, err := s.db.CursorEnd("Relationships.Query", len(rows)); err != nil {
+			endErr = err
+			if keep < len(rows) {
+				rows = rows[:keep]
+			}
+		}
+	}
+	return fn(&rowResult{rows: rows, err: endErr})
+}
